@@ -114,3 +114,41 @@ Section Ops.
           split; [congruence|]. rewrite <- Hf1, <- Hf2. exact Hk'.
   Qed.
 End Ops.
+
+(** * The remaining observers: peek_parse_span, peek_cursor_pos, is_empty_with_filter *)
+Section Observers.
+  Variable m : metrics.
+  Hypothesis Htab : 1 <= tabw m.
+  Variable t : text.
+  Hypothesis Ht : wf_text t.
+  Local Notation Inv := (Inv m t).
+
+  (** with a look-ahead buffered (it is the first deliverable token [x]): the cursor after it, and the
+      parse span as it will be after consuming it when it starts at the cursor - otherwise the
+      present parse span *)
+  Theorem peek_observers lx ys b : Inv lx ys -> c_buf lx = Some b ->
+    exists x s, kept (c_filter lx) ys = x :: s /\ b = buf_of x
+      /\ c_peek_cursor_pos lx = Some (e_end x)
+      /\ c_peek_parse_span lx = Some (if pos_eqb (e_start x) (c_cur lx) then enclosing (c_ps lx) (e_end x) else c_parse_span lx).
+  Proof.
+    intros HI Eb. pose proof (inv_buf _ _ _ _ HI) as Hb. rewrite Eb in Hb. destruct Hb as (sk & x & rest & Hfk & ->).
+    exists x, (kept (c_filter lx) rest). split; [exact (kept_first _ _ _ _ Hfk)|]. split; [reflexivity|].
+    unfold c_peek_cursor_pos, c_peek_parse_span. rewrite Eb. cbn [option_map buf_of pk_cursor pk_start]. split; reflexivity.
+  Qed.
+
+  Theorem no_buffer_no_peek_observers lx : c_buf lx = None -> c_peek_cursor_pos lx = None /\ c_peek_parse_span lx = None.
+  Proof. intros E. unfold c_peek_cursor_pos, c_peek_parse_span. rewrite E. split; reflexivity. Qed.
+
+  (** is_empty_with_filter: look ahead, then compare the cursor with the end of the text; what is
+      deliverable does not change, and "empty" is only ever answered when nothing is deliverable *)
+  Theorem is_empty_with_filter_spec lx ys : Inv lx ys ->
+    exists b lx' ys', c_is_empty_with_filter lx = Ok (b, lx') /\ Inv lx' ys'
+      /\ kept (c_filter lx') ys' = kept (c_filter lx) ys /\ c_filter lx' = c_filter lx /\ c_rec lx' = c_rec lx
+      /\ (b = true -> kept (c_filter lx) ys = []).
+  Proof using Htab Ht.
+    intros HI. destruct (c_buffer_next_spec m Htab t Ht lx ys HI) as (lx' & ys' & E & HI' & Hk & Hf & Hr & _).
+    exists (c_at_end lx'), lx', ys'. unfold c_is_empty_with_filter. rewrite E. cbn [bind].
+    split; [reflexivity|]. split; [exact HI'|]. split; [exact Hk|]. split; [exact Hf|]. split; [exact Hr|].
+    intros Hend. rewrite <- Hk. rewrite (at_end_stream m Htab t Ht lx' ys' HI' Hend). reflexivity.
+  Qed.
+End Observers.
